@@ -294,11 +294,11 @@ def shrink(case):
             yield {'op': 'pmap', 'ps': case['ps'][:i] + case['ps'][i + 1:]}
 
 TECHNIQUE = 'Coq proof (integer model of the date helpers = bucketing spec) + exhaustive small-scope differential correspondence against /repo'
-LEVEL_TEXT = ('28 theorems in coq/Props/C20.v (all closed under the global context) prove, for all inputs and sizes, that the '
+LEVEL_TEXT = ('Theorems in coq/Props/C20.v (all closed under the global context) prove, for all inputs and sizes, that the '
               'Gallina model of get_periods / get_days / generate_period_offset_map / get_period_offsets equals the '
               'specification of Spec/DatesSpec.v: arithmetic progression with the exact count and a fuel bound, '
               'floor-day + origin + in-range flag, half-open period intervals, -1 iff flag off, exact error/IndexError '
-              'characterisation, and the composed pipeline (t - start) / period_length. The model is tied to the repository '
+              'characterisation, and the composed pipeline (t - start) / period_length; day numbers are shift-invariant and monotone. The model is tied to the repository '
               'by running the extracted model and the real functions on the same ~1.4e5 generated cases per quick run.')
 LEVEL_NOTE = ('Trusted: Coq kernel, extraction, harness. Timestamps are modelled as exact integer ticks; binary64 '
               'floor((t-m)/86400.0) = integer division is exercised by the correspondence on boundary timestamps, and '
